@@ -200,7 +200,7 @@ def run(R):
     R.require("total", "sound", "complete", "unique")
     R.assumptions = ["the supplied string of a returned object is observed through as_json()['vectorString'] (C11)",
                      "result order is unspecified (built from a set) and never compared"]
-    R.pmap("shard", [(i, R.pick(4000, 130000), R.seed) for i in range(16)])
+    R.pmap("shard", [(i, R.pick(4000, 500000), R.seed) for i in range(16)])
     if R.P.strata.get("required-vectors", 0) < 1000:
         R.inconclusive.append("fewer than 1000 required vectors in the generated texts")
 
